@@ -758,6 +758,21 @@ theorem run_not_live (env : Env P S J) (t : Nat) (h : List (Op P S)) :
     intro σ h1 h0
     exact ih _ (Nat.lt_of_lt_of_le h1 (step_next_le env σ op)) (step_not_live env σ op t h1 h0)
 
+/-! ### definitions used in the statements of Props/C19 -/
+
+/-- the history that gives a fresh task (which gets id `n`) the files of `T`: initiate with the root's
+    source, then supply every file -/
+def freshHist (n : Nat) (T : Task P S) (rootSrc : S) : List (Op P S) :=
+  .call (.initiate T.root rootSrc) :: supplyAll n T.files
+
+/-- an emitter that panics on one particular root document (source 1), as the pinned printer did on
+    `query Q { ...Missing }` -/
+def trapEnv : Env Nat Nat Nat :=
+  ⟨fun _ => .ok [], fun a _ => a, fun _ look => match look 0 with
+    | some d => if d.src = 1 then .trap else .js 0
+    | none => .js 0⟩
+
+
 end Steps
 
 end NitroVerif.Loader
